@@ -293,6 +293,8 @@ pub fn seed_tree(dir: &Path, outer_secret: &Path) {
     let f = cpath(&dir.join("fifo"));
     unsafe { libc::mkfifo(f.as_ptr(), 0o600) };
     std::fs::hard_link(dir.join("d/a"), dir.join("h")).unwrap();
+    // two names of one file in ONE directory: a single READDIR / READDIRPLUS batch lists the same inode twice
+    std::fs::hard_link(dir.join("h"), dir.join("h2")).unwrap();
     // a legal name that merely begins with two dots
     std::fs::write(dir.join("..data"), b"dotdot-data\n").unwrap();
     std::fs::set_permissions(dir.join("..data"), std::fs::Permissions::from_mode(0o644)).unwrap();
